@@ -37,10 +37,21 @@ Section Generic.
     end.
 End Generic.
 
+(* ---- the six containers, as histories over a pool of items ---- *)
+Inductive container := CItemCollection | CIRIs | CCollection | CCollectionPage | COrdered | COrderedPage.
+Inductive cop := OpAppend (i : nat) | OpRemove (i : nat) | OpContains (i : nat).
+
+(* Everything below is parametric in the IRI comparison [ideq a b cs] = a.Equals(b, cs), like module EqG of
+   Model/Equal.v (builder b47): module CoG holds the generic definitions, the names without prefix after it are the
+   instance with iri_eqb, as abbreviations; Model/CollU.v instantiates with iri_equ (Model/IriEqU.v). *)
+Module CoG.
+Section IdRel.
+  Variable ideq : bytes -> bytes -> bool -> bool.
+
 (* ItemsEqual as a boolean (it never panics on the repaired tree) *)
-Definition items_eqb (a b : item) : bool := match ieq a b with Ok b => b | _ => false end.
+Definition items_eqb (a b : item) : bool := match EqGI.ieq ideq a b with Ok b => b | _ => false end.
 (* the test IRIs.Contains(r) makes per member: r.GetLink().Equals(iri, false) *)
-Definition iri_member_eqb (iri x : bytes) : bool := iri_eqb x iri false.
+Definition iri_member_eqb (iri x : bytes) : bool := ideq x iri false.
 
 (* ---- ItemCollection ---- *)
 Definition ic_contains (l : list item) (r : item) : bool := g_contains item items_eqb l r.
@@ -69,10 +80,6 @@ Definition iris_append (l : list bytes) (obs : list item) : list bytes :=
   fold_left (fun acc ob => if is_nil ob then acc
                            else if iris_contains_item acc (IIri false (lnk ob)) then acc else acc ++ [lnk ob]) obs l.
 Definition iris_collection (l : list bytes) : list item := map (IIri false) l.
-
-(* ---- the six containers, as histories over a pool of items ---- *)
-Inductive container := CItemCollection | CIRIs | CCollection | CCollectionPage | COrdered | COrderedPage.
-Inductive cop := OpAppend (i : nat) | OpRemove (i : nat) | OpContains (i : nat).
 
 Section Run.
   Variable pool : list item.
@@ -103,3 +110,20 @@ Section Run.
         let '(fin, outs) := c_run c st' r in (fin, out :: outs)
     end.
 End Run.
+End IdRel.
+End CoG.
+Notation items_eqb := (CoG.items_eqb iri_eqb).
+Notation iri_member_eqb := (CoG.iri_member_eqb iri_eqb).
+Notation ic_contains := (CoG.ic_contains iri_eqb).
+Notation ic_append := (CoG.ic_append iri_eqb).
+Notation ic_remove := (CoG.ic_remove iri_eqb).
+Notation ic_count := CoG.ic_count.
+Notation ic_first := CoG.ic_first.
+Notation ic_normalize := CoG.ic_normalize.
+Notation iris_contains_item := (CoG.iris_contains_item iri_eqb).
+Notation iris_append := (CoG.iris_append iri_eqb).
+Notation iris_collection := CoG.iris_collection.
+Notation pget := CoG.pget.
+Notation c_step := (CoG.c_step iri_eqb).
+Notation c_contains := (CoG.c_contains iri_eqb).
+Notation c_run := (CoG.c_run iri_eqb).
